@@ -148,7 +148,7 @@ func runProcessScript(c procCase) (fails []h.Failure, obs observations) {
 	defer os.RemoveAll(dir)
 	logPath := filepath.Join(dir, "handler.log")
 	port := freePort()
-	pipesBefore, _ := filepath.Glob("/tmp/zinc-server-pipe-*")
+	ownPipes := map[string]bool{} // the named pipe(s) THIS master opened (other scripts run at the same time in other shards)
 	master := exec.Command(os.Args[0])
 	master.Env = append(os.Environ(), "VERIF_PM_ROLE=1", fmt.Sprintf("VERIF_PM_INIT=%d", c.Init), fmt.Sprintf("VERIF_PM_MAX=%d", c.Max),
 		fmt.Sprintf("VERIF_PM_PORT=%d", port), "VERIF_PM_LOG="+logPath,
@@ -165,20 +165,23 @@ func runProcessScript(c procCase) (fails []h.Failure, obs observations) {
 	}
 	masterDone := make(chan struct{})
 	go func() { master.Wait(); close(masterDone) }()
+	var notePipes func()
 	defer func() {
+		notePipes()
 		syscall.Kill(-master.Process.Pid, syscall.SIGKILL)
 		<-masterDone
-		pipesAfter, _ := filepath.Glob("/tmp/zinc-server-pipe-*")
-		known := map[string]bool{}
-		for _, p := range pipesBefore {
-			known[p] = true
-		}
-		for _, p := range pipesAfter {
-			if !known[p] {
-				os.Remove(p)
-			}
+		for p := range ownPipes {
+			os.Remove(p)
 		}
 	}()
+	notePipes = func() {
+		fds, _ := filepath.Glob(fmt.Sprintf("/proc/%d/fd/*", master.Process.Pid))
+		for _, fd := range fds {
+			if target, err := os.Readlink(fd); err == nil && strings.HasPrefix(target, "/tmp/zinc-server-pipe-") {
+				ownPipes[target] = true
+			}
+		}
+	}
 	fail := func(sig, msg string) {
 		b, _ := os.ReadFile(filepath.Join(dir, "master.err"))
 		cj, _ := json.Marshal(c)
@@ -236,6 +239,7 @@ func runProcessScript(c procCase) (fails []h.Failure, obs observations) {
 		return
 	}
 	time.Sleep(150 * time.Millisecond)
+	notePipes()
 	client := &http.Client{Timeout: 6 * time.Second, Transport: &http.Transport{DisableKeepAlives: true}}
 	type answer struct{ tok, body string; err error }
 	var allAnswers []answer
